@@ -400,6 +400,7 @@ func (c *Ctx) RuleLimitFirst(fn *ssa.Function, inputIdx int, sentinel *ssa.Globa
 		c.add("violated", "C18.L", fn, fn.Pos(), "no MaxInputLength guard on the input found on the way to its use")
 		return
 	}
+	c.checkGuardUnconditional(fn, gi)
 	c.checkWorkDominated(fn, input, gi.okBlk, nil)
 	c.checkSuccessDominated(fn, input, gi.okBlk, gi.errBlk, nil)
 	// error edge: returns error built from zero T and wrapping the sentinel, no operand derived from input content
@@ -449,6 +450,53 @@ func (c *Ctx) RuleLimitLate(fn *ssa.Function, inputIdx int, sentinel *ssa.Global
 	}
 	cyc := cyclicBlocks(fn)
 	bad := false
+	// the guarded parser measures what it is handed: a part of the text (`s[:10]`) is within the limit however long
+	// the text is
+	for _, a := range deleg.Call.Args {
+		if rootParam(a) == input && hasSliceOnPath(a) {
+			c.add("violated", "C18.L", fn, deleg.Pos(), "only a part of the input is handed to the guarded parser: the limit is applied to the part, an input longer than the limit is not rejected")
+			bad = true
+		}
+	}
+	// … and its verdict is the entry's: no return with a nil error that the delegation does not dominate (other than
+	// for the empty text), and no error of the entry's own that repeats the input (the too-long error is among those
+	// it wraps)
+	if res := fn.Signature.Results(); res.Len() > 0 && isErrorType(res.At(res.Len()-1).Type()) {
+		var mayBeNil func(v ssa.Value, depth int) bool
+		mayBeNil = func(v ssa.Value, depth int) bool {
+			switch x := v.(type) {
+			case *ssa.Const:
+				return x.IsNil()
+			case *ssa.Phi:
+				if depth > 4 {
+					return false
+				}
+				for _, e := range x.Edges {
+					if mayBeNil(e, depth+1) {
+						return true
+					}
+				}
+			}
+			return false
+		}
+		for _, b := range fn.Blocks {
+			ret, ok := b.Instrs[len(b.Instrs)-1].(*ssa.Return)
+			if !ok || len(ret.Results) == 0 {
+				continue
+			}
+			ev := ret.Results[len(ret.Results)-1]
+			if !deleg.Block().Dominates(b) && mayBeNil(ev, 0) && !emptyOnlyBlock(fn, input, b) {
+				c.add("violated", "C18.L", fn, ret.Pos(), "a return with a nil error is reachable without passing the delegation to the guarded parser: input longer than the limit is answered instead of rejected")
+				bad = true
+			}
+			if !mayBeNil(ev, 0) && ev != ssa.Value(deleg) && usesParam(ret, input) {
+				if ex, isEx := ev.(*ssa.Extract); !isEx || ex.Tuple != ssa.Value(deleg) {
+					c.add("violated", "C18.L", fn, ret.Pos(), "the entry point wraps the guarded parser's error in one of its own that is built from the input: the too-long rejection then reproduces the input")
+					bad = true
+				}
+			}
+		}
+	}
 	for _, b := range fn.Blocks {
 		for _, in := range b.Instrs {
 			if in == ssa.Instruction(deleg) {
@@ -812,6 +860,8 @@ func (c *Ctx) checkSuccessDominated(fn *ssa.Function, input *ssa.Parameter, okBl
 		}
 		if usesParam(ret, input) {
 			c.add("violated", "C18.L", fn, ret.Pos(), "an error built from the input is returned in front of the input-length guard: input longer than the limit is rejected with another error, which repeats it")
+		} else if !mayBeNil(ev, 0) && !c.fromGuardedCall(ev, 0) {
+			c.add("violated", "C18.L", fn, ret.Pos(), "another rejection sits in front of the input-length guard: input longer than the limit gets that error, not the too-long one")
 		}
 	}
 	c.add("discharged", "C18.L", fn, fn.Pos(), fmt.Sprintf("%d return(s): none with a nil error outside the guard's continuation", n))
@@ -2100,4 +2150,105 @@ func onlyCompared(u *ssa.UnOp) bool {
 		}
 	}
 	return true
+}
+
+// checkGuardUnconditional: the continuation behind the guard is entered from the length test, or from the test that
+// the limit is switched off (`MaxInputLength != 0 && …`), and from nowhere else: a further conjunct
+// (`r&flag == 0 && MaxInputLength != 0 && l > MaxInputLength`) is a way round the limit for the inputs it selects.
+func (c *Ctx) checkGuardUnconditional(fn *ssa.Function, gi *guardInfo) {
+	bo := gi.cmp
+	if bo == nil || bo.Block() == nil || bo.Block().Parent() != fn {
+		return
+	}
+	G := bo.Block()
+	g := globalLoad(bo.X)
+	if g == nil {
+		g = globalLoad(bo.Y)
+	}
+	if g == nil {
+		return
+	}
+	for _, p := range gi.okBlk.Preds {
+		if p == G || gi.okBlk.Dominates(p) {
+			continue
+		}
+		// the block ends in the test `MaxInputLength != 0` (whatever else it computes: `if l := len(input); …`)
+		if iff, ok := p.Instrs[len(p.Instrs)-1].(*ssa.If); ok {
+			if cond, ok := iff.Cond.(*ssa.BinOp); ok && globalLoad(cond.X) == g {
+				if k, isK := constInt(cond.Y); isK && k == 0 {
+					var nz *ssa.BasicBlock
+					switch cond.Op {
+					case token.NEQ, token.GTR:
+						nz = p.Succs[0]
+					case token.EQL, token.LEQ:
+						nz = p.Succs[1]
+					}
+					if nz != nil && (nz == G || (len(p.Preds) == 1 && p.Preds[0] == G)) {
+						continue
+					}
+				}
+			}
+		}
+		pos := fn.Pos()
+		if len(p.Instrs) > 0 {
+			pos = p.Instrs[len(p.Instrs)-1].Pos()
+			if iff, ok := p.Instrs[len(p.Instrs)-1].(*ssa.If); ok && iff.Cond.Pos().IsValid() {
+				pos = iff.Cond.Pos()
+			}
+		}
+		c.add("violated", "C18.L", fn, pos, "the input-length test is skipped when a further condition holds (a conjunct beside `MaxInputLength != 0`): input longer than the limit gets through under that condition")
+	}
+}
+
+// fromGuardedCall: the error value comes (wrapped or as it is) from a call of a function of the module that holds
+// the length guard for one of its parameters — the rejection of another input of the same entry point
+// (`Compare(a, b)`: a's parse error is returned before b is looked at).
+func (c *Ctx) fromGuardedCall(v ssa.Value, depth int) bool {
+	if depth > 5 {
+		return false
+	}
+	switch x := v.(type) {
+	case *ssa.Extract:
+		return c.fromGuardedCall(x.Tuple, depth+1)
+	case *ssa.Call:
+		if callee := c.StaticCallee(&x.Call); callee != nil && inRepo(callee) && len(callee.Blocks) > 0 {
+			for ai := range callee.Params {
+				if ai < len(x.Call.Args) && (c.findGuard(callee, callee.Params[ai]) != nil || c.delegatesGuard(callee, ai, 0)) {
+					return true
+				}
+			}
+			return false
+		}
+		for _, a := range x.Call.Args {
+			if c.fromGuardedCall(a, depth+1) {
+				return true
+			}
+		}
+	case *ssa.MakeInterface:
+		return c.fromGuardedCall(x.X, depth+1)
+	case *ssa.ChangeInterface:
+		return c.fromGuardedCall(x.X, depth+1)
+	case *ssa.Slice:
+		return c.fromGuardedCall(x.X, depth+1)
+	case *ssa.Alloc:
+		// the variadic argument array of fmt.Errorf: what is stored into it
+		if x.Referrers() != nil {
+			for _, r := range *x.Referrers() {
+				if ia, ok := r.(*ssa.IndexAddr); ok && ia.Referrers() != nil {
+					for _, rr := range *ia.Referrers() {
+						if st, ok := rr.(*ssa.Store); ok && c.fromGuardedCall(st.Val, depth+1) {
+							return true
+						}
+					}
+				}
+			}
+		}
+	case *ssa.Phi:
+		for _, e := range x.Edges {
+			if c.fromGuardedCall(e, depth+1) {
+				return true
+			}
+		}
+	}
+	return false
 }
